@@ -284,6 +284,19 @@ func runC19(c *fw.Ctx) {
 			cmpTrace(sy("same-text-a"), sy("same-text-b")), cmpTrace(sy("same-text-a"), sy("same-text-a")), cmpTrace(canon.Ve(sy("same-text-a")), canon.Ve(sy("same-text-b"))),
 			cmpTrace(li(sy("fn"), li(sy("p")), sy("p")), li(sy("fn"), li(sy("p")), sy("p"))), cmpTrace(sy("two-params"), sy("same-text-a")),
 			cmpTrace(canon.Ma(map[string]*canon.Node{canon.Marker + "f": sy("same-text-a")}), canon.Ma(map[string]*canon.Node{canon.Marker + "f": sy("same-text-b")})))
+		if r.Intn(4) == 0 {
+			// a deeply nested (but ordinary) expression: depth is counted by no route, or by all alike
+			depth := gen.Pick(r, []int{60, 120, 125, 126, 127, 128, 129, 130, 200, 255, 256, 257, 400})
+			deep := canon.In(0)
+			for k := 0; k < depth; k++ {
+				if k%2 == 0 {
+					deep = li(sy("+"), canon.In(1), deep)
+				} else {
+					deep = li(sy("do"), deep)
+				}
+			}
+			extras = append(extras, li(sy("trace!"), li(sy("list"), canon.Ke("deep"), canon.In(depth), deep)))
+		}
 		if r.Intn(3) == 0 {
 			extras = extras[:1+r.Intn(len(extras))]
 		}
